@@ -23,6 +23,7 @@ Record obs := {
   o_pending : list (Z * (Z * bool));  (* descending event nonce *)
   o_heights : Z * Z * Z;              (* last event nonce, observed external height, fx height at observation *)
   o_bals : list Z;
+  o_relation : list Z;                (* ids with an erc20 outgoing relation, descending *)
   o_events : list (Z * Z)             (* 1 = send_to_external_canceled id, 2 = outgoing_batch_canceled nonce, 3 = bridge_call_refund address *)
 }.
 
@@ -31,9 +32,9 @@ Record pool_case := {
   pc_steps : list (xop * obs)
 }.
 
-Definition mk_obs ok p b bb c1 c2 c3 cs bs fm pd e x f bl ev : obs :=
+Definition mk_obs ok p b bb c1 c2 c3 cs bs fm pd e x f bl rl ev : obs :=
   {| o_ok := ok; o_pool := p; o_batches := b; o_byblock := bb; o_ctr := (c1, c2, c3); o_calls := cs; o_bysender := bs;
-     o_frommsg := fm; o_pending := pd; o_heights := (e, x, f); o_bals := bl; o_events := ev |}.
+     o_frommsg := fm; o_pending := pd; o_heights := (e, x, f); o_bals := bl; o_relation := rl; o_events := ev |}.
 Definition T := mk_tx.
 Definition B n t txs tok fr blk : batch := {| b_nonce := n; b_timeout := t; b_txs := txs; b_token := tok; b_feercv := fr; b_block := blk |}.
 Definition C n t blk s r toks to d m e : bcall :=
@@ -83,7 +84,8 @@ Definition step_diff (keys : list acct_key) (s' : state) (evs : list event) (r :
   ++ (if list_eqb pending_eqb (pending s') (o_pending ob) then [] else [8])
   ++ (let '(a, b, c) := o_heights ob in if (evn s' =? a) && (obs_ext s' =? b) && (obs_fx s' =? c) then [] else [9])
   ++ (if list_eqb Z.eqb (map (get_bal (bal s')) keys) (o_bals ob) then [] else [10])
-  ++ (if list_eqb pairZ_eqb (flat_map ev_proj evs) (o_events ob) then [] else [11]).
+  ++ (if list_eqb pairZ_eqb (flat_map ev_proj evs) (o_events ob) then [] else [11])
+  ++ (if list_eqb Z.eqb (relation s') (o_relation ob) then [] else [12]).
 
 Fixpoint steps_diag (keys : list acct_key) (i : Z) (s : state) (steps : list (xop * obs)) : list (Z * list Z) :=
   match steps with
